@@ -783,9 +783,14 @@ def k_search_from_file(f, rng):
     return Exp(r"Question '%s' is a select from file type, using 'search\(\)'" % a, "name", name=a)
 
 
-@kind("external-choices-missing", 2)
+@kind("external-choices-missing", 3)
 def k_external_missing(f, rng):
-    which = rng.randrange(2)
+    which = rng.randrange(3)
+    if which == 2:
+        # without a choice_filter the question is an ordinary select (a warning says so) and reads the choices sheet: the list must be there
+        f.external_choices = [{"list_name": "xl", "name": "a", "label": "A"}]
+        r = add_row_somewhere(f, rng, Row("q", "select_one_external xl", fresh(f, "sx"), {"label": "L"}))
+        return Exp(r"List name not in choices sheet: xl|There should be a choices sheet in this xlsform", "row", row=r)
     if which == 0:
         f.external_choices = []
         r = add_row_somewhere(f, rng, Row("q", "select_one_external xl", fresh(f, "sx"), {"label": "L", "choice_filter": "a=1"}))
@@ -925,6 +930,10 @@ def judge_catalogue(ctx, kname, f, e, fmt, o, nblank):
         ctx.viol(f"accepted:{kfull}" + (f":{fmt}" if kname == "duplicate-header" else ""), f"form with a '{kfull}' error was converted instead of refused (container {fmt})", wit())
         return
     if not o.exc_is_pyxform:
+        ck = crash_key(o, f, f.to_sheets())
+        if "@" not in ck:  # a mechanism known by a structural predicate: one key whichever workload meets it
+            ctx.viol(ck, f"'{kfull}' raised internal {o.exc_type}: {o.exc_msg[:200]} (at {o.exc_frame})", wit())
+            return
         ctx.viol(f"crash:{o.exc_type}@{o.exc_frame}:{kfull}", f"'{kfull}' raised internal {o.exc_type}: {o.exc_msg[:200]} (at {o.exc_frame})", wit())
         return
     msg = o.exc_msg or ""
@@ -1243,6 +1252,9 @@ def crash_key(o, f, sheets):
         mech = ":plain-column-named-bind-or-control"
     elif any(re.match(r"^(type|name)\s*::?\s*\S", h.strip().lower()) for h in hdrs) and o.exc_type in ("TypeError", "AttributeError"):
         mech = ":type-or-name-header-with-language-suffix"
+    elif o.exc_type == "KeyError" and (o.exc_frame or "").endswith("add_choices_info_to_question") and any(
+            isinstance(r.type, str) and re.match(r"^\s*select[_ ]one[_ ]external\s", r.type.lower()) and not r.cells.get("choice_filter") for r, _ in f.walk()):
+        mech = ":external-select-without-filter-list-not-in-choices"
     if mech:
         return "crash" + mech  # one mechanism, several call sites
     return f"crash:{o.exc_type}@{o.exc_frame}:{msg}"
